@@ -30,8 +30,8 @@ META = {
 LEAVES = ["para", "heading", "code", "list", "target", "warn"]
 
 
-def frame(w, opt="none", nopt=0, blanks=0, skip=0, first=False):
-    return {"w": w, "opt": opt, "nopt": nopt, "blanks": blanks, "skip": skip, "first": first}
+def frame(w, opt="none", nopt=0, blanks=0, skip=0, first=False, post=0, dname="note"):
+    return {"w": w, "opt": opt, "nopt": nopt, "blanks": blanks, "skip": skip, "first": first, "post": post, "dname": dname}
 
 
 def all_frames():
@@ -45,11 +45,16 @@ def all_frames():
                 for skip in (0, 1):
                     fs.append(frame(w, opt, nopt, blanks, skip))
         fs.append(frame(w, first=True))
+        fs.append(frame(w, "none", 0, 1, 0, post=1))
+        fs.append(frame(w, "none", 0, 2, 0, dname="epigraph"))       # (docutils' quote directives have no options)
+        fs.append(frame(w, "none", 0, 0, 1, post=1, dname="epigraph"))
+    for w in ("quote", "list", "div", "inc"):
+        fs.append(frame(w, post=1))
     return fs
 
 
 def small_frames():
-    fs = [frame(w) for w in ("quote", "list", "div", "inc")]
+    fs = [frame(w) for w in ("quote", "list", "div", "inc")] + [frame("inc", post=1), frame("quote", post=1), frame("btick", dname="epigraph")]
     for w in ("btick", "colon"):
         for opt, nopt in (("none", 0), ("colon", 1)):
             for blanks in (0, 1):
@@ -83,6 +88,8 @@ def concretize(path, pre, leaf, uid):
         sib = []
         for s_ in range(f["skip"]):
             sib += [f"SIB{n}s{s_}{m}", ""]
+        if f["post"]:
+            inner = inner + ["", f"POST{n}p{m}"]
         w = f["w"]
         if w == "quote":
             body = sib + inner
@@ -92,7 +99,9 @@ def concretize(path, pre, leaf, uid):
             inner = ["- " + body[0]] + [("  " + ln) if ln else "" for ln in body[1:]]
         elif w in ("btick", "colon", "div"):
             ch = "`" if w == "btick" else ":"
-            flen = max([2] + [len(ln) - len(ln.lstrip(ch)) for ln in inner if ln.startswith(ch * 3)]) + 1
+            import re as _re
+            runs_ = [len(mm.group(1)) for mm in (_re.match(r"[\s>\-]*(" + _re.escape(ch) + r"{3,})", ln) for ln in inner) if mm]
+            flen = max([2] + runs_) + 1
             flen = max(flen, 3)
             fence = ch * flen
             if w == "div":
@@ -105,7 +114,8 @@ def concretize(path, pre, leaf, uid):
                     opts = [":class: c1", f":name: nm{n}{m}"][: f["nopt"]]
                 elif f["opt"] == "yaml":
                     opts = ["---", "class: c1", "---"]
-                inner = [fence + "{note}"] + opts + [""] * f["blanks"] + sib + inner + [fence]
+                tail = ["", f"-- Attrib{n}{m}"] if f["dname"] == "epigraph" else []
+                inner = [fence + "{" + f["dname"] + "}"] + opts + [""] * f["blanks"] + sib + inner + tail + [fence]
         elif w == "inc":
             fn = f"inc{n}{m}.md"
             files[fn] = "\n".join(sib + inner) + "\n"
@@ -179,6 +189,12 @@ def observe(case):
         obs.append([ws[0]["line"] if ws[0]["line"] is not None else -1, srcidx(ws[0]["src"])])
     else:
         obs.append([leafnode.line if leafnode.line is not None else -1, srcidx(leafnode.source)])
+    for n in range(len(path), 0, -1):
+        if path[n - 1]["post"]:
+            ps = [p_ for p_ in doc.findall(nodes.paragraph) if f"POST{n}p{m}" in p_.astext() and not any(isinstance(a, nodes.system_message) for a in _anc(p_))]
+            if len(ps) != 1:
+                return {"problem": f"sibling paragraph POST{n} occurs {len(ps)} times", "text": text, "files": files}
+            obs.append([ps[-1].line if ps[-1].line is not None else -1, srcidx(ps[-1].source)])
     return {"obs": obs, "text": text, "files": files}
 
 
@@ -195,7 +211,7 @@ def run(ctx):
     ctx.rule = ("R: every layout within the bound (path of frames x preamble x leaf), each with unique markers. V: random layouts of depth 3-5. "
                 "non-trivial = at least one directive, container or include frame")
     ctx.assumptions += ["docutils front end, pre-transform doctree; the true line is known by construction and double-checked by M's S clause"]
-    base = {"DevIncludePlusOne": False, "DevColonNested": False, "DevFirstLine": False}
+    base = {"DevIncludePlusOne": False, "DevColonNested": False, "DevFirstLine": False, "DevRestoreToTop": False}
     runs = [("depth2", all_frames(), 2, [0, 2], LEAVES), ("depth3", small_frames(), 3, [0], LEAVES if not quick else ["para", "heading", "warn"])]
     if not quick:
         runs.append(("depth4", [frame(w) for w in ("quote", "list", "div", "inc")] + [frame("btick", "colon", 1, 1), frame("colon", "none", 0, 0), frame("colon", "yaml", 1, 0)], 4, [0], ["para", "warn"]))
@@ -208,13 +224,14 @@ def run(ctx):
         ctx.add_tlc(f"Lines_{name}", r, f"paths <= {depth} over {len(frames)} frame shapes x {len(leaves)} leaves x {len(pres)} preambles")
         recs += r.records
     fv = {"FramesV": "{" + ", ".join(fexpr(f) for f in small_frames() + [frame("colon", first=True)]) + "}"}
+    base3 = dict(base)
     rc = tlc.run("Lines", tlc.cfg(ctx, "l_cov.cfg", {**base, "Frames": "<-FramesV", "MaxDepth": 2, "Pres": {0}, "Leaves": {"para"}}, invariants=["TrueLines"]),
                  wd=ctx.wd, coverage=True, defs=fv)
-    for act in ("EnterQuoteOrList", "EnterDirective", "EnterDiv", "EnterInclude", "Leaf"):
+    for act in ("EnterQuoteOrList", "EnterDirective", "EnterDiv", "EnterInclude", "Leaf", "Exit"):
         if rc.coverage.get(act, (0, 0))[0] == 0:
             raise tlc.MachineryFailure(f"Lines: action {act} never taken (vacuous)")
     ctx.add_tlc("Lines_cov", rc)
-    for dev in ("DevIncludePlusOne", "DevColonNested", "DevFirstLine"):
+    for dev in ("DevIncludePlusOne", "DevColonNested", "DevFirstLine", "DevRestoreToTop"):
         rd = tlc.run("Lines", tlc.cfg(ctx, f"l_{dev}.cfg", {**base, dev: True, "Frames": "<-FramesV", "MaxDepth": 2, "Pres": {0}, "Leaves": {"para"}},
                                       invariants=["TrueLines"]), wd=ctx.wd, defs=fv)
         tlc.expect_violation(rd, "TrueLines", f"Lines {dev}")
@@ -255,6 +272,7 @@ def run(ctx):
         vcases.append({"id": 1_000_000 + t, "path": path, "pre": rnd.choice([0, 2]), "leaf": leaf, "wd": str(ctx.wd / "docs")})
     vouts = pmap(observe, vcases, chunksize=16)
     traces, keep = [], {}
+    vmiss = 0
     for c, o in zip(vcases, vouts):
         case = {"leg": "V", "markdown": o.get("text"), "files": o.get("files"), "path": c["path"], "leaf": c["leaf"]}
         if "error" in o:
@@ -262,12 +280,13 @@ def run(ctx):
             continue
         if "problem" in o:
             ctx.gen_miss += 1
+            vmiss += 1
             continue
         ctx.count(("v", c["id"]))
         keep[c["id"]] = (c, o)
         traces.append({"id": c["id"], "path": c["path"], "pre": c["pre"], "leaf": c["leaf"], "obs": o["obs"]})
-    if ctx.gen_miss > 0.3 * len(vcases):
-        raise tlc.MachineryFailure(f"Lines V: {ctx.gen_miss} of {len(vcases)} layouts did not render to the intended nesting")
+    if vmiss > 0.3 * len(vcases):
+        raise tlc.MachineryFailure(f"Lines V: {vmiss} of {len(vcases)} layouts did not render to the intended nesting")
     verdicts = _validate(ctx, traces, base, "l_trace", "LinesTrace")
     suspects = []
     for v in verdicts:
@@ -349,7 +368,7 @@ def judge(ctx, leg, c, marks, o):
         ctx.gen_miss += 1
         return
     exp = [[m["m"], m["src"]] for m in marks]
-    if o["obs"] == exp:
+    if len(o["obs"]) == len(exp) and all(a == b or m["what"] == "quote-directive" for a, b, m in zip(o["obs"], exp, marks)):
         return
     # as-built deviations: decided by the model with the matching Dev switches (batch, below)
     c.setdefault("_mismatch", True)
@@ -370,7 +389,7 @@ _orig_run = run
 
 
 def run(ctx):       # noqa: F811  (wrap: flush the R mismatches through TLC before finishing)
-    base = {"DevIncludePlusOne": False, "DevColonNested": False, "DevFirstLine": False}
+    base = {"DevIncludePlusOne": False, "DevColonNested": False, "DevFirstLine": False, "DevRestoreToTop": False}
     _orig_run(ctx)
     _flush_r(ctx, base)
 
